@@ -41,3 +41,137 @@ package graphsync
 //@       (visited(k) && old(has(m.m, k)) && old(m.m[k]).channelID == id ==> !has(m.m, k))
 //@   guarantee [exact] forall k graphsync.RequestID :: (has(self.m, k) <==> old(has(self.m, k)) && old(self.m[k]).channelID != id) &&
 //@       (has(self.m, k) ==> self.m[k] == old(self.m[k])) -- every request id of the channel is forgotten, every other mapping is kept
+
+//@ func (*graphsync.requestIDToChannelIDMap).forEach {C16,C20}
+//@   requires f != nil
+//@   loop 0 invariant [read-only] forall k graphsync.RequestID :: has(m.m, k) == old(has(m.m, k)) && (has(m.m, k) ==> m.m[k] == old(m.m[k]))
+//@   loop 0 step [entry-as-stored] calls(dyn.func) == 1 && all(dyn.func, has(m.m, $1) && $2 == m.m[$1].sending && $3 == m.m[$1].channelID)
+
+// ---------------------------------------------------------------------------------------------
+// graphsync callbacks: every event is routed through the request id -> channel id map (C16)
+
+//@ extern func (github.com/ipfs/go-graphsync.IncomingBlockHookActions).TerminateWithError
+//@ func (*graphsync.Transport).gsIncomingBlockHook {C16,C07}
+//@   requires response != nil && block != nil && hookActions != nil && t.events != nil
+//@   ensures [looked-up] called(requestIDToChannelIDMap.load, _, response.RequestID())
+//@   ensures [unknown-request] !ret(requestIDToChannelIDMap.load, 1) ==> untouched
+//@   ensures [routed] calls(EventsHandler.OnDataReceived) <= 1 && all(EventsHandler.OnDataReceived, $1 == ret(requestIDToChannelIDMap.load, 0) && $2 == block.Link() &&
+//@       $3 == block.BlockSize() && $4 == block.Index() && $5 == (block.BlockSizeOnWire() != 0))
+//@   ensures [only] only(requestIDToChannelIDMap.load, EventsHandler.OnDataReceived, IncomingBlockHookActions.TerminateWithError, IncomingBlockHookActions.PauseRequest)
+//@   ensures [pause] calls(IncomingBlockHookActions.PauseRequest) == 1 <==> calls(EventsHandler.OnDataReceived) == 1 && ret(EventsHandler.OnDataReceived, 0) == datatransfer.ErrPause
+
+//@ func (*graphsync.Transport).gsBlockSentHook {C16,C07}
+//@   requires request != nil && block != nil && t.events != nil
+//@   ensures [wire-filter] block.BlockSizeOnWire() == 0 ==> untouched && never(requestIDToChannelIDMap.load)
+//@   ensures [unknown-request] calls(requestIDToChannelIDMap.load) == 1 && !ret(requestIDToChannelIDMap.load, 1) ==> untouched
+//@   ensures [routed] calls(EventsHandler.OnDataSent) <= 1 && all(EventsHandler.OnDataSent, $1 == ret(requestIDToChannelIDMap.load, 0) && $2 == block.Link() &&
+//@       $3 == block.BlockSize() && $4 == block.Index() && $5) && all(requestIDToChannelIDMap.load, $1 == request.ID())
+//@   ensures [only] only(requestIDToChannelIDMap.load, EventsHandler.OnDataSent)
+
+//@ func (*graphsync.Transport).gsOutgoingBlockHook {C16,C07,C08}
+//@   loop 0 invariant [extensions] $i >= 0
+//@   requires request != nil && block != nil && hookActions != nil && t.events != nil
+//@   ensures [wire-filter] block.BlockSizeOnWire() == 0 ==> untouched && never(requestIDToChannelIDMap.load)
+//@   ensures [unknown-request] calls(requestIDToChannelIDMap.load) == 1 && !ret(requestIDToChannelIDMap.load, 1) ==> untouched
+//@   ensures [routed] calls(EventsHandler.OnDataQueued) <= 1 && all(EventsHandler.OnDataQueued, $1 == ret(requestIDToChannelIDMap.load, 0) && $2 == block.Link() &&
+//@       $3 == block.BlockSize() && $4 == block.Index() && $5) && all(requestIDToChannelIDMap.load, $1 == request.ID())
+//@   ensures [pause] calls(OutgoingBlockHookActions.PauseResponse) == 1 <==> calls(EventsHandler.OnDataQueued) == 1 && ret(EventsHandler.OnDataQueued, 1) == datatransfer.ErrPause
+
+//@ func (*graphsync.Transport).gsRequestProcessingListener {C16}
+//@   requires request != nil && t.events != nil
+//@   ensures [unknown-request] !ret(requestIDToChannelIDMap.load, 1) ==> untouched
+//@   ensures [routed] all(EventsHandler.OnTransferInitiated, $1 == ret(requestIDToChannelIDMap.load, 0)) && all(requestIDToChannelIDMap.load, $1 == request.ID()) &&
+//@       only(requestIDToChannelIDMap.load, EventsHandler.OnTransferInitiated)
+
+//@ func (*graphsync.Transport).gsCompletedResponseListener {C16,C01}
+//@   requires request != nil && t.events != nil
+//@   ensures [unknown-request] !ret(requestIDToChannelIDMap.load, 1) ==> untouched
+//@   ensures [cancelled-is-not-completion] status == graphsync.RequestCancelled ==> untouched
+//@   ensures [once] ret(requestIDToChannelIDMap.load, 1) && status != graphsync.RequestCancelled ==> calls(EventsHandler.OnChannelCompleted) == 1
+//@   ensures [routed] all(EventsHandler.OnChannelCompleted, $1 == ret(requestIDToChannelIDMap.load, 0) && (($2 == nil) == (status == graphsync.RequestCompletedFull))) &&
+//@       all(requestIDToChannelIDMap.load, $1 == request.ID())
+
+//@ func (*graphsync.Transport).gsNetworkSendErrorListener {C16}
+//@   requires request != nil && t.events != nil
+//@   ensures [unknown-request] !ret(requestIDToChannelIDMap.load, 1) ==> untouched
+//@   ensures [routed] all(EventsHandler.OnSendDataError, $1 == ret(requestIDToChannelIDMap.load, 0) && $2 == gserr) && all(requestIDToChannelIDMap.load, $1 == request.ID()) &&
+//@       only(requestIDToChannelIDMap.load, EventsHandler.OnSendDataError)
+
+//@ func (*graphsync.Transport).gsNetworkReceiveErrorListener {C16}
+//@   ensures [per-request] seq(requestIDToChannelIDMap.forEach)
+//@ func (*graphsync.Transport).gsNetworkReceiveErrorListener$1 {C16}
+//@   requires *t != nil && (**t).events != nil
+//@   ensures [only-channels-with-that-peer] calls(EventsHandler.OnReceiveDataError) <= 1 && all(EventsHandler.OnReceiveDataError, $1 == chid && $2 == *gserr) &&
+//@       (calls(EventsHandler.OnReceiveDataError) == 1 <==> (chid.Initiator == *p || chid.Responder == *p)) && only(EventsHandler.OnReceiveDataError)
+
+//@ func (*graphsync.Transport).gsRequestorCancelledListener {C16}
+//@   requires request != nil
+//@   ensures [unknown-request] !ret(requestIDToChannelIDMap.load, 1) ==> untouched
+//@   ensures [routed] all(Transport.getDTChannel, $1 == ret(requestIDToChannelIDMap.load, 0)) && all(requestIDToChannelIDMap.load, $1 == request.ID()) &&
+//@       all(dtChannel.onRequesterCancelled, $0 == ret(Transport.getDTChannel, 0)) && only(requestIDToChannelIDMap.load, Transport.getDTChannel, dtChannel.onRequesterCancelled)
+
+//@ func (*graphsync.Transport).processExtension {C05,C16}
+//@   requires gsMsg != nil && t.events != nil
+//@   after GetTransferData [decoders-are-FromIPLD] $r1 == nil && $r0 != nil ==> ($r0.IsRequest() ? implements($r0, datatransfer.Request) : implements($r0, datatransfer.Response))
+//@   ensures [no-extension] calls(GetTransferData) == 1 && ret(GetTransferData, 0) == nil ==> never(EventsHandler.OnRequestReceived) && never(EventsHandler.OnResponseReceived)
+//@   ensures [role-req] all(EventsHandler.OnRequestReceived, $1 == chid && $2 == ret(GetTransferData, 0) && ret(GetTransferData, 0).IsRequest() &&
+//@       chid == datatransfer.ChannelID{ID: ret(GetTransferData, 0).TransferID(), Initiator: p, Responder: t.peerID})
+//@   ensures [role-resp] all(EventsHandler.OnResponseReceived, $1 == chid && $2 == ret(GetTransferData, 0) && !ret(GetTransferData, 0).IsRequest() &&
+//@       chid == datatransfer.ChannelID{ID: ret(GetTransferData, 0).TransferID(), Initiator: t.peerID, Responder: p})
+//@   ensures [at-most-one] calls(EventsHandler.OnRequestReceived) + calls(EventsHandler.OnResponseReceived) <= 1 &&
+//@       only(GetTransferData, EventsHandler.OnRequestReceived, EventsHandler.OnResponseReceived)
+
+//@ func (*graphsync.Transport).gsRequestUpdatedHook {C16,C05}
+//@   loop 0 invariant [extensions] $i >= 0
+//@   requires request != nil && update != nil && hookActions != nil && t.events != nil
+//@   ensures [unknown-request] !ret(requestIDToChannelIDMap.load, 1) ==> untouched
+//@   ensures [routed] all(Transport.processExtension, $1 == ret(requestIDToChannelIDMap.load, 0) && $2 == update && $3 == p) && all(requestIDToChannelIDMap.load, $1 == request.ID())
+//@ func (*graphsync.Transport).gsIncomingResponseHook {C16,C05}
+//@   loop 0 invariant [extensions] $i >= 0
+//@   requires response != nil && hookActions != nil && t.events != nil
+//@   ensures [unknown-request] !ret(requestIDToChannelIDMap.load, 1) ==> untouched
+//@   ensures [routed] all(Transport.processExtension, $1 == ret(requestIDToChannelIDMap.load, 0) && $2 == response && $3 == p) && all(requestIDToChannelIDMap.load, $1 == response.RequestID())
+
+//@ func (*graphsync.Transport).gsOutgoingRequestHook {C16,C05}
+//@   requires request != nil && hookActions != nil && t.events != nil
+//@   ensures [no-extension] ret(GetTransferData, 0) == nil ==> untouched
+//@   ensures [derived-id] all(EventsHandler.OnChannelOpened, $1 == (ret(GetTransferData, 0).IsRequest() ?
+//@       datatransfer.ChannelID{Initiator: t.peerID, Responder: p, ID: ret(GetTransferData, 0).TransferID()} :
+//@       datatransfer.ChannelID{Initiator: p, Responder: t.peerID, ID: ret(GetTransferData, 0).TransferID()}))
+//@   ensures [same-channel] all(Transport.trackDTChannel, $1 == arg(EventsHandler.OnChannelOpened, 1)) && all(Transport.CleanupChannel, $1 == arg(EventsHandler.OnChannelOpened, 1)) &&
+//@       all(dtChannel.gsReqOpened, $0 == ret(Transport.trackDTChannel, 0) && $1 == request.ID())
+//@   ensures [untracked-not-opened] calls(EventsHandler.OnChannelOpened) == 1 && ret(EventsHandler.OnChannelOpened, 0) != nil ==> never(dtChannel.gsReqOpened) && last(Transport.CleanupChannel)
+
+//@ func (*graphsync.Transport).trackDTChannel {C16,C20}
+//@   modifies t.dtChannels
+//@   ensures [tracked] result != nil
+//@ func (*graphsync.Transport).getDTChannel {C16,C20}
+//@   reads
+//@   ensures [found-or-error] (err == nil) == (result0 != nil)
+
+//@ func (*graphsync.Transport).CleanupChannel {C16,C09,C20}
+//@   modifies t.dtChannels
+//@   guarantee [forgets-only-this] forall k datatransfer.ChannelID :: (has(self.dtChannels, k) <==> old(has(self.dtChannels, k)) && k != chid) &&
+//@       (has(self.dtChannels, k) ==> self.dtChannels[k] == old(self.dtChannels[k]))
+//@   ensures [cleans-the-tracked-channel] calls(dtChannel.cleanup) <= 1 && only(dtChannel.cleanup)
+
+//@ func (*graphsync.dtChannel).cleanup {C16,C09,C20}
+//@   ensures [forget] last(requestIDToChannelIDMap.deleteRefs, $0 == c.t.requestIDToChannelID && $1 == c.channelID) && calls(requestIDToChannelIDMap.deleteRefs) == 1
+//@   ensures [store-lifetime] calls(GraphExchange.UnregisterPersistenceOption) == (ret(dtChannel.hasStore, 0) ? 1 : 0) &&
+//@       all(GraphExchange.UnregisterPersistenceOption, $1 == "data-transfer-" + c.channelID.String())
+//@ func (*graphsync.dtChannel).hasStore {C16,C20}
+//@   reads
+//@ func (*graphsync.dtChannel).maxLinks {C20}
+//@   reads
+//@ func (*graphsync.dtChannel).useStore {C16,C20}
+//@   modifies c.storeRegistered
+//@   ensures [same-name] all(GraphExchange.RegisterPersistenceOption, $1 == "data-transfer-" + c.channelID.String()) && calls(GraphExchange.RegisterPersistenceOption) == 1
+//@   guarantee [registered-iff-ok] self.storeRegistered == (old(self.storeRegistered) || ret(GraphExchange.RegisterPersistenceOption, 0) == nil)
+//@ func (*graphsync.dtChannel).onRequesterCancelled {C16,C10,C20}
+//@   modifies c.requesterCancelled
+//@   guarantee [marks] self.requesterCancelled && self.requestID == old(self.requestID) && self.isOpen == old(self.isOpen)
+
+//@ func graphsync.getDoNotSendFirstBlocksExtension {C10}
+//@   requires channel != nil
+//@   ensures [skip] err == nil && len(result0) == 1 && result0[0].Name == graphsync.ExtensionsDoNotSendFirstBlocks &&
+//@       called(EncodeDoNotSendFirstBlocks, channel.ReceivedCidsTotal()) && result0[0].Data == ret(EncodeDoNotSendFirstBlocks, 0)
